@@ -6,6 +6,8 @@ f14_0:
   call f15_0
   call f16_1
   lea d_f14_0(%rip),%rax
+  mov wvsv1@GOTPCREL(%rip),%rax
+  mov wvsv0(%rip),%rax
   ret
 .section .data.d_f14_0,"aw",@progbits
 .globl d_f14_0
@@ -18,6 +20,7 @@ f14_1:
   ret
   call f20_3
   call f20_0
+  mov wvsv0(%rip),%rax
   ret
 .section .text.f14_2,"ax",@progbits
 .globl f14_2
@@ -26,4 +29,6 @@ f14_2:
   ret
   call f24_0
   call f19_0
+  mov wvsv0(%rip),%rax
+  mov wvsv1(%rip),%rax
   ret
